@@ -183,6 +183,16 @@ def solve(formulas, timeout_ms, want_model=False, tag=''):
     return verdict, model
 
 
+def _fsize(f):
+    """Number of monomials in a formula (size measure for the relaxation pass)."""
+    if isinstance(f, Cmp):
+        return len(f.p.t)
+    fs = getattr(f, 'fs', None)
+    if fs is not None:
+        return sum(_fsize(g) for g in fs)
+    return 1
+
+
 def _components(formulas):
     """Partition formulas into groups connected through shared variables."""
     parent = {}
@@ -422,6 +432,16 @@ class Context:
         if extra is FALSE:
             return 'unsat', None
         cone, _ = self._cone(extra.vars())
+        if not want_model:
+            # relaxation pass: without the large constraints (typically definitions of
+            # abs / max / root atoms by big polynomials) the query is a superset of the
+            # behaviours; unsat there is unsat here, anything else decides nothing
+            small = [f for f in cone if _fsize(f) <= 40]
+            if len(small) < len(cone):
+                v, _ = solve(small + [extra], 1500, False)
+                if v == 'unsat':
+                    STATS.relaxed = getattr(STATS, 'relaxed', 0) + 1
+                    return 'unsat', None
         return solve(cone + [extra], timeout_ms or self.t_branch, want_model, tag)
 
     def full_model(self, extra, timeout_ms=None):
